@@ -125,7 +125,7 @@ Theorem C11_count_obs_counts : forall q w n,
 Proof. exact (fun q w n => eq_refl). Qed.
 
 Theorem C11_window_exhausted_spec : forall q w n,
-  window_exhausted q w n = true <-> forall i, (n - Z.to_nat w <= i < n)%nat -> (length q <= i)%nat.
+  window_exhausted q w n = true <-> forall i, (n - Z.to_nat w <= i < n)%nat -> nth i (sq q) (sd q) = None.
 Proof. exact window_exhausted_spec. Qed.
 
 Theorem C11_countByWindow_spec_unchanged : forall q w s tail, 0 < s -> forall ts t,
@@ -220,10 +220,10 @@ Proof. exact absent_key_changes_state. Qed.
 (* a None state is a state: last, reset and min-or-None return None, and the key stays in the state RDD (this is
    C11_state_keys / C11_state_keys_persist, which hold for every update function, on concrete histories) *)
 Theorem C11_none_is_a_state :
-  state_after u_last [[(0, VInt 3); (0, VNone)]; []] 2 = [(0, VNone)] /\
-  state_after u_reset [[(0, VInt 3)]; []; [(0, VInt 1)]] 2 = [(0, VNone)] /\
-  state_after u_reset [[(0, VInt 3)]; []; [(0, VInt 1)]] 3 = [(0, VInt 1)] /\
-  state_after u_minopt [[(0, VNone); (1, VInt 2)]; [(1, VNone); (1, VInt (-1))]] 2 = [(0, VNone); (1, VInt (-1))].
+  state_after u_last (plain_k [[(0, VInt 3); (0, VNone)]; []]) 2 = [(0, VNone)] /\
+  state_after u_reset (plain_k [[(0, VInt 3)]; []; [(0, VInt 1)]]) 2 = [(0, VNone)] /\
+  state_after u_reset (plain_k [[(0, VInt 3)]; []; [(0, VInt 1)]]) 3 = [(0, VInt 1)] /\
+  state_after u_minopt (plain_k [[(0, VNone); (1, VInt 2)]; [(1, VNone); (1, VInt (-1))]]) 2 = [(0, VNone); (1, VInt (-1))].
 Proof. exact none_is_a_state. Qed.
 
 (* what k consumers of the state stream observe: no tick raises; one capture per consumer and tick, all equal to
@@ -306,7 +306,7 @@ Proof. exact union_ok_collect. Qed.
    programs are well-formed and quiet, no tick raises, and the window holds the parent's most recent w batches as the
    parent emitted them (for a window of state snapshots: the state RDDs of the last w intervals) *)
 Theorem C11_window_over_derived : forall pv u qq pre count w s k ts,
-  derived_parent pv u qq = Some pre -> In pv [0; 1; 2; 4; 5; 6] -> (pv = 4 -> Forall keyed_batch qq) ->
+  derived_parent pv u qq = Some pre -> In pv [0; 1; 2; 4; 5; 6] -> (pv = 4 -> keyed_source qq) ->
   0 < s -> increasing 0 ts ->
   let g := prog_window_over count pre w s k in
   snd (run_graph g ts) = map (fun _ => None) ts /\
@@ -317,41 +317,71 @@ Theorem C11_window_over_derived : forall pv u qq pre count w s k ts,
      union (nbuf nsi) = Ok (nrdd nsi) /\ collect (nrdd nsi) = concat (map collect (nbuf nsi))).
 Proof. exact window_over_derived. Qed.
 
+(* ================= sibling windowed views of one source =================
+   The queue source is stream 0 ([source]: entries, None = an explicit idle interval whose RDD is an EmptyRDD, and the
+   default batch handed out whenever the queue is EMPTY -- all theorems above are for such sources; [batches q n] lists
+   what intervals 1..n held: an entry's elements, nothing for an idle entry, the default's elements once the queue has
+   run dry, whatever the identity of the batch objects). *)
+
+(* a windowed view of the source registered ANYWHERE after it, among any other streams -- sibling views of the same or
+   other lengths and slides, in any order: after every run in which no tick raised it holds the source's most recent w
+   interval RDDs and at ITS emitting intervals a consumer sees exactly the concatenation of the most recent w batches *)
+Theorem C11_window_view_of_source : forall q tail i w s ts,
+  well_formed (Src q :: tail) -> (0 < i < length (Src q :: tail))%nat ->
+  nth_error (Src q :: tail) i = Some (Window w s 0) -> 0 < s ->
+  increasing 0 ts -> snd (run_graph (Src q :: tail) ts) = map (fun _ => None) ts ->
+  exists nsi, nth_error (gnodes (final (Src q :: tail) ts)) i = Some nsi /\
+    nbuf nsi = win_buf q w (length ts) /\ nctr nsi = Z.of_nat (length ts) mod s /\
+    (ts <> [] -> Z.of_nat (length ts) mod s = 0 ->
+     obs_of (nrdd nsi) = Some (concat (lastn (Z.to_nat w) (batches q (length ts))))).
+Proof. exact window_view_of_source. Qed.
+
+(* programs made of sibling views (window / countByWindow of the source, one consumer each, any list of (count?, w, s)):
+   well-formed and quiet, so no tick raises and every view satisfies the above unconditionally *)
+Theorem C11_sibling_views : forall q views i w s ts,
+  views <> [] -> nth_error (prog_views q views) i = Some (Window w s 0) -> 0 < s -> increasing 0 ts ->
+  snd (run_graph (prog_views q views) ts) = map (fun _ => None) ts /\
+  exists nsi, nth_error (gnodes (final (prog_views q views) ts)) i = Some nsi /\
+    nbuf nsi = win_buf q w (length ts) /\ nctr nsi = Z.of_nat (length ts) mod s /\
+    (ts <> [] -> Z.of_nat (length ts) mod s = 0 ->
+     obs_of (nrdd nsi) = Some (concat (lastn (Z.to_nat w) (batches q (length ts))))).
+Proof. exact sibling_views. Qed.
+
 (* ================= non-vacuity / sanity ================= *)
 Example increasing_example : increasing 0 [1; 2; 4; 7].
 Proof. cbn. repeat split; reflexivity. Qed.
 (* the doctest of DStream.window *)
 Example window_doctest :
-  let q := map (fun z => [VInt z]) [1; 2; 3; 4; 5; 6] in
+  let q := plain_source (map (fun z => [VInt z]) [1; 2; 3; 4; 5; 6]) in
   map (fun e => snd e) (glog (final (prog_window q 3 1 1) [1; 2; 3; 4; 5; 6]))
   = map (fun l => Some (map VInt l)) [[1]; [1; 2]; [1; 2; 3]; [2; 3; 4]; [3; 4; 5]; [4; 5; 6]].
 Proof. vm_compute. reflexivity. Qed.
 (* the history of the repaired defect e98bc04: slide 2, two consumers (not called in interval 1) *)
 Example window_slide2_two_consumers :
-  let q := map (fun z => [VInt z]) [1; 2; 3; 4; 5] in
+  let q := plain_source (map (fun z => [VInt z]) [1; 2; 3; 4; 5]) in
   map (fun e => snd e) (glog (final (prog_window q 3 2 2) [1; 2; 3; 4]))
   = [Some [VInt 1; VInt 2]; Some [VInt 1; VInt 2]; Some [VInt 1; VInt 2]; Some [VInt 1; VInt 2];
      Some [VInt 2; VInt 3; VInt 4]; Some [VInt 2; VInt 3; VInt 4]].
 Proof. vm_compute. reflexivity. Qed.
 (* the doctest of countByWindow; and a slide of 2: nothing is logged (and nothing raises) in the first interval *)
 Example count_doctest :
-  let q := map (map VInt) [[1; 1; 5]; [5; 5; 2; 4]; [1; 2]] in
+  let q := plain_source (map (map VInt) [[1; 1; 5]; [5; 5; 2; 4]; [1; 2]]) in
   map (fun e => snd e) (glog (final (prog_count q 2 1 1) [1; 2; 3]))
   = [Some [VInt 3]; Some [VInt 7]; Some [VInt 6]].
 Proof. vm_compute. reflexivity. Qed.
 Example count_slide2_waits :
-  let q := map (map VInt) [[1; 1]; [2]] in
+  let q := plain_source (map (map VInt) [[1; 1]; [2]]) in
   run_graph (prog_count q 2 2 1) [1; 2] = (final (prog_count q 2 2 1) [1; 2], [None; None]) /\
   glog (final (prog_count q 2 2 1) [1; 2]) = [(2, 0, Some [VInt 3])].
 Proof. vm_compute. split; reflexivity. Qed.
 (* the second doctest of updateStateByKey (sum), keys 0 = 'a', 1 = 'b' *)
 Example state_doctest :
-  let kq := [[(0, VInt 1)]; [(0, VInt 2); (1, VInt 4); (1, VInt 3)]] in
+  let kq := plain_k ([[(0, VInt 1)]; [(0, VInt 2); (1, VInt 4); (1, VInt 3)]]) in
   state_after u_sum kq 2 = [(0, VInt 3); (1, VInt 7)].
 Proof. vm_compute. reflexivity. Qed.
 (* the hypotheses of C11_state_spec are satisfiable: key 1 first appears in the second batch *)
 Example state_spec_instance :
-  let kq := [[(0, VInt 1)]; [(0, VInt 2); (1, VInt 4); (1, VInt 3)]; []] in
+  let kq := plain_k ([[(0, VInt 1)]; [(0, VInt 2); (1, VInt 4); (1, VInt 3)]; []]) in
   kbatches kq 3 = [[(0, VInt 1)]] ++ [(0, VInt 2); (1, VInt 4); (1, VInt 3)] :: [[]] /\
   vals 1 [(0, VInt 1)] = [] /\ vals 1 [(0, VInt 2); (1, VInt 4); (1, VInt 3)] <> [] /\
   fold_key u_sum 1 ([(0, VInt 2); (1, VInt 4); (1, VInt 3)] :: [[]]) VNone = VInt 7.
@@ -359,7 +389,7 @@ Proof. vm_compute. repeat split. discriminate. Qed.
 (* the hypotheses of the tick theorems are satisfiable: a window with two consumers and a stateful stream with
    one, before the first tick *)
 Example tick_theorem_instance :
-  let g := prog_both [[VTup [VInt 0; VInt 1]]] 2 2 u_sum 1 in
+  let g := prog_both (plain_source [[VTup [VInt 0; VInt 1]]]) 2 2 u_sum 1 in
   well_formed g /\ (2 <= length g)%nat /\ length (gnodes (init_state g)) = length g /\
   (forall j ns, nth_error (gnodes (init_state g)) j = Some ns -> ntime ns < 1) /\
   snd (tick g 1 (init_state g)) = None.
@@ -373,12 +403,12 @@ Proof.
 Qed.
 (* the regression case corpus/C11/finding_count_then_state.json: countByWindow(1, 2) before updateStateByKey(sum) *)
 Example repaired_7e069b7 :
-  let g := prog_count_state (enc_queue [[(0, VInt 1)]]) 1 2 u_sum 1 in
+  let g := prog_count_state (enc_queue (plain_k [[(0, VInt 1)]])) 1 2 u_sum 1 in
   rdd_of (final g [1; 2]) 6 = RData [VTup [VInt 0; VInt 1]] /\ snd (run_graph g [1; 2]) = [None; None].
 Proof. vm_compute. split; reflexivity. Qed.
 (* a key that is absent for two intervals: the update function is applied to [] in each of them *)
 Example absent_key_is_updated :
-  let kq := [[(0, VInt 4)]; []; []] in
+  let kq := plain_k ([[(0, VInt 4)]; []; []]) in
   state_after u_idle kq 3 = [(0, VInt 2)] /\
   state_after u_history kq 3 = [(0, VList [VList [VInt 4]; VList []; VList []])] /\
   state_after u_decay kq 3 = [(0, VInt 1)].
@@ -386,7 +416,7 @@ Proof. vm_compute. repeat split. Qed.
 (* a window of state snapshots: window(2, 1) over updateStateByKey(sum); consumer 0 sees the window, consumer 1 the
    parent; and a window over a union of two queues *)
 Example window_of_state_snapshots :
-  let q := enc_queue [[(0, VInt 1)]; [(1, VInt 2); (0, VInt 3)]] in
+  let q := enc_queue (plain_k [[(0, VInt 1)]; [(1, VInt 2); (0, VInt 3)]]) in
   match derived_parent 4 u_sum q with
   | Some pre => map (fun e => snd e) (glog (final (prog_window_over false pre 2 1 1) [1; 2]))
   | None => []
@@ -395,3 +425,10 @@ Example window_of_state_snapshots :
      Some [VTup [VInt 0; VInt 1]; VTup [VInt 0; VInt 4]; VTup [VInt 1; VInt 2]];
      Some [VTup [VInt 0; VInt 4]; VTup [VInt 1; VInt 2]]].
 Proof. vm_compute. reflexivity. Qed.
+(* an idle entry next to a default: interval 2 is EMPTY, the default [9] appears from interval 3 on; two sibling views *)
+Example idle_entry_and_default :
+  let q := mkSource [Some [VInt 1]; None] (Some [VInt 9]) in
+  batches q 4 = [[VInt 1]; []; [VInt 9]; [VInt 9]] /\
+  map (fun e => snd e) (glog (final (prog_views q [(false, 2, 1); (true, 2, 2)]) [1; 2; 3; 4]))
+  = [Some [VInt 1]; Some [VInt 1]; Some [VInt 1]; Some [VInt 9]; Some [VInt 1]; Some [VInt 9; VInt 9]; Some [VInt 2]].
+Proof. vm_compute. split; reflexivity. Qed.
